@@ -10,7 +10,7 @@ from collections.abc import Sequence
 from dataclasses import dataclass, field
 from typing import Optional
 
-from .safe import safe_issubclass
+from .safe import safe_issubclass, safe_repr
 from .value import (
     NO_RETURN_VALUE,
     AnnotatedValue,
@@ -161,6 +161,11 @@ class EqualsPredicate:
     ctx: CanAssignContext = field(repr=False)
     use_is: bool = False
 
+    def __repr__(self) -> str:
+        # pattern_val is an arbitrary user object
+        pattern = safe_repr(self.pattern_val)
+        return f"EqualsPredicate(pattern_val={pattern}, use_is={self.use_is})"
+
     def __call__(self, value: Value, positive: bool) -> Optional[Value]:
         inner_value = unannotate(value)
         if isinstance(inner_value, KnownValue):
@@ -206,6 +211,11 @@ class InPredicate:
     pattern_vals: Sequence[object]
     pattern_type: type
     ctx: CanAssignContext = field(repr=False)
+
+    def __repr__(self) -> str:
+        patterns = safe_repr(self.pattern_vals)
+        typ = self.pattern_type
+        return f"InPredicate(pattern_vals={patterns}, pattern_type={typ!r})"
 
     def __call__(self, value: Value, positive: bool) -> Optional[Value]:
         inner_value = unannotate(value)
